@@ -15,7 +15,7 @@ for m in sorted(glob.glob(os.path.join(V, "seeded", "*", "meta.json"))):
     seeds.append("| %s | %s | %s | %s | %s |" % (d["id"], d["property"], d.get("mechanism", first).replace("|", "/"), d.get("first_run", "caught"), d.get("after", "caught (exit 1)")))
 tabA = "| id | property | change (from the seeder's notes) | first run of the check | after strengthening |\n|---|---|---|---|---|\n" + "\n".join(seeds)
 s = open(os.path.join(V, "DESIGN.md")).read()
-s = re.sub(r"<!-- TABLE7 -->.*?<!-- /TABLE7 -->", "<!-- TABLE7 -->\n" + tab7 + "\n<!-- /TABLE7 -->", s, flags=re.S)
-s = re.sub(r"<!-- TABLEA -->.*?<!-- /TABLEA -->", "<!-- TABLEA -->\n" + tabA + "\n<!-- /TABLEA -->", s, flags=re.S)
+s = re.sub(r"<!-- TABLE7 -->.*?<!-- /TABLE7 -->", lambda m: "<!-- TABLE7 -->\n" + tab7 + "\n<!-- /TABLE7 -->", s, flags=re.S)
+s = re.sub(r"<!-- TABLEA -->.*?<!-- /TABLEA -->", lambda m: "<!-- TABLEA -->\n" + tabA + "\n<!-- /TABLEA -->", s, flags=re.S)
 open(os.path.join(V, "DESIGN.md"), "w").write(s)
 print("findings", len(rows), "seeds", len(seeds))
